@@ -170,6 +170,33 @@ def oracle(ck):
         got = o["a_shifted"].to_numpy()
         if len(got) != len(exp) or not np.allclose(got, exp, atol=1e-14, equal_nan=False):
             ck.violation("df_timeshift on a %s frame does not return timeshift(column) row by row" % lab, dict(frame=lab), tag="df-index")
+    # a long record with one huge glitch: the output at a sample depends on its own stencil only (exact displacement for integer shifts,
+    # untouched far from the glitch for fractional ones), whatever the record length
+    for Nl in (70000, 140001):
+        gl = np.random.default_rng(ck.rng.randint(0, 2 ** 31))
+        xl = gl.standard_normal(Nl); gpos = Nl // 2 + 1234; xl[gpos] = 1e12
+        yi = np.asarray(timeshift(xl, np.array(7.0), order=31))
+        if not np.array_equal(yi[100:-100], xl[107:Nl - 93]):
+            ck.violation("integer shift of a %d-sample record is not an exact displacement (max deviation %g away from the ends)" % (Nl, float(np.max(np.abs(yi[100:-100] - xl[107:Nl - 93])))), dict(N=Nl, shift=7.0, order=31), tag="long-record")
+        yf = np.asarray(timeshift(xl, np.array(2.37), order=31))
+        far = np.arange(1000, 3000)
+        loc = np.asarray(timeshift(xl[:6000].copy(), np.array(2.37), order=31))[far]
+        if np.max(np.abs(yf[far] - loc)) > 1e-12:
+            ck.violation("fractional shift of a %d-sample record: samples 1000..3000 differ by %g from the same shift applied to the first 6000 samples alone (a glitch at sample %d leaks everywhere)" % (Nl, float(np.max(np.abs(yf[far] - loc))), gpos), dict(N=Nl, shift=2.37, order=31), tag="long-record")
+    # shifts whose fractional part rounds to exactly 1 (negative and smaller than an ulp): the record itself, not a one-sample displacement
+    for order in (1, 3, 31, 111):
+        h = (order + 1) // 2; Nn = 2 * h + 60
+        xr = np.array([ck.rng.uniform(-1, 1) for _ in range(Nn)])
+        for tiny in (-1e-17, -1e-300, -5e-324):
+            idx = np.arange(h + 2, Nn - h - 2)
+            yc = np.asarray(timeshift(xr, np.array(tiny), order=order))
+            sv = np.zeros(Nn); sv[::3] = tiny; sv[1] = 0.25
+            yv = np.asarray(timeshift(xr, sv, order=order))
+            sel = idx[sv[idx] != 0.25]
+            if np.max(np.abs(yc[idx] - xr[idx])) > 1e-9 or np.max(np.abs(yv[sel] - xr[sel])) > 1e-9:
+                ck.violation("shift %r (order %d) does not return the record itself at interior samples (error %g constant path, %g per-sample path)" % (tiny, order, float(np.max(np.abs(yc[idx] - xr[idx]))), float(np.max(np.abs(yv[sel] - xr[sel])))),
+                             dict(order=order, shift=tiny), tag="tiny-negative")
+                break
     # records that are not float64 (ADC counts, float32): both paths still return the interpolated (float) values
     for order in (1, 3, 7, 31):
         h = (order + 1) // 2; N = 120
